@@ -72,6 +72,8 @@ fn main() {
         #[cfg(feature = "hooks")]
         "encode" => scen_hook::encode(&mut sink, seed, thorough),
         #[cfg(feature = "hooks")]
+        "tiewalk" => scen_hook::tiewalk(&mut sink, seed, thorough),
+        #[cfg(feature = "hooks")]
         "birthday" => scen_hook::birthday(&mut sink, seed, thorough),
         #[cfg(feature = "hooks")]
         "rs" => scen_hook::rs(&mut sink, seed, thorough),
